@@ -285,3 +285,45 @@ fn c16_q_poisonable_paths() {
 	kani::cover!(poisoned, "poisoned");
 	kani::cover!(!poisoned, "clean");
 }}
+
+/// a Lockable that owns a droppable value and (currently) yields no locks
+pub struct NoLocks(pub P);
+unsafe impl crate::lockable::Lockable for NoLocks {
+	type Guard<'g> = ();
+	type DataMut<'a> = ();
+	fn get_ptrs<'a>(&'a self, _ptrs: &mut Vec<&'a dyn crate::lockable::RawLock>) {}
+	unsafe fn guard(&self) -> Self::Guard<'_> {}
+	unsafe fn data_mut(&self) -> Self::DataMut<'_> {}
+}
+unsafe impl crate::lockable::OwnedLockable for NoLocks {}
+
+vharness! {
+#[kani::unwind(9)]
+fn c16_q_zero_lock_collections_drop_their_child_once() {
+	{
+		let c = BoxedLockCollection::new(NoLocks(p(0, 0)));
+		assert!(no_drops(), "C16_constructor_drops_nothing");
+		drop(c);
+		assert!(unsafe { DROPS[0] } == 1, "C16_plain_drop_of_a_collection_without_locks_drops_its_child_once");
+	}
+	{
+		let c = BoxedLockCollection::try_new((NoLocks(p(1, 0)), Vec::<MP>::new()));
+		drop(c);
+	}
+	{
+		let c = BoxedLockCollection::new(NoLocks(p(2, 7)));
+		let ch = c.into_child();
+		assert!(unsafe { DROPS[2] } == 0 && ch.0.val == 7, "C16_into_child_drops_nothing");
+	}
+	{
+		let o = OwnedLockCollection::new(NoLocks(p(3, 0)));
+		drop(o);
+		let r = RetryingLockCollection::new(NoLocks(p(4, 0)));
+		let key = ThreadKey::get().unwrap();
+		let g = r.lock(key);
+		drop(g);
+		drop(r);
+	}
+	assert!(drops(5), "C16_every_value_dropped_exactly_once");
+	kani::cover!(true, "end");
+}}
